@@ -124,3 +124,84 @@ Theorem C03_quant_backoff_nearest : forall bits backoffs x, backoffs <> [] -> (2
   exists c, QuantModel.decode t code = Some c /\
             forall j c', (2 <= j)%nat -> nth j t None = Some c' -> (Qabs (x - c) <= Qabs (x - c'))%Q.
 Proof. exact quant_backoff_nearest. Qed.
+
+(* ---- the trie as a data structure (lm/search_trie.cc, lm/trie.cc): the sorted-array layout is a map --------------------------
+   Model C03/TrieLayout.v (tied byte for byte to the search structure of `trie` / `trie -a` binary files through C03/TrieMem.v and
+   TrieImage.v, stream trie-image).  For EVERY forest of n-grams (first-child / next-sibling form; no bound on order, fan-out, size):
+   the depth-first build of RecursiveInsert/WriteEntries puts the nodes of depth j into array j in left-to-right order, each with the
+   number of array-(j+1) records of earlier nodes as its next pointer ... *)
+From Kenlm Require Import C03.TrieLayout C03.TrieLayoutProofs.
+Theorem C03_trie_build_is_level_order : forall (V : Type) (f : forest V) d ls, (d + depth V f <= length ls)%nat ->
+  length (flat V d f ls) = length ls /\
+  forall i, nth i (flat V d f ls) [] =
+            nth i ls [] ++ (if (d <=? i)%nat then recs_of V (level_len V ls (S i)) (lev V (i - d) f) else []).
+Proof. exact flat_spec. Qed.
+
+(* ... visiting the keys one by one in pre-order (what the code literally does) is that build ... *)
+Theorem C03_trie_visit_is_build : forall (V : Type) n (F : forest V), build V n (preorder V [] F) = flat V 0 F (repeat [] n).
+Proof. exact build_is_flat. Qed.
+
+(* ... and on the result the lookup of TrieSearch (index the unigram array by word id, then search sibling range after sibling
+   range [next_p, next_{p+1})) returns exactly the payload of the n-gram and a child range as long as its number of children
+   (so `independent_left` <=> no n-gram extends it), and fails exactly when the forest has no such n-gram. *)
+Theorem C03_trie_walk_is_lookup : forall (V : Type) n (F : forest V), (depth V F <= n)%nat -> dense_from V 0 F ->
+  forall k, match lookup V F k with
+            | None => walk V (built V n F) k = None
+            | Some (v, c) => exists lo, walk V (built V n F) k = Some (v, lo, (lo + flen V c)%Z)
+            end.
+Proof. exact walk_correct. Qed.
+
+(* ---- the arrays of the trie in memory (C03/TrieMem.v over the GENERATED bit-packing routines; bytes tied to the binary files) ----
+   BitPackedMiddle<DontBhiksha> with the DontQuantize payload: after any inserts and FinishedLoading on zeroed memory, Find of a
+   word in a parent range with sorted words returns the record holding it -- index, probability with the sign bit forced back on,
+   back-off, child range [its next pointer, the next record's) -- and reports absence exactly when no record of the range holds it. *)
+From Kenlm Require Import C03.TrieMem C03.TrieMemProofs C03.BhikshaModel C03.BhikshaProofs.
+Local Open Scope Z_scope.
+Theorem C03_trie_middle_array : forall m, 0 <= t_base m -> 0 <= t_wb m <= 57 -> 0 <= t_nb m <= 57 ->
+  forall recs next_end mem0, Forall (trec_ok m) recs -> 0 <= next_end < 2 ^ t_nb m ->
+  (forall i, 8 * t_base m <= i < 8 * t_base m + (Z.of_nat (length recs) + 1) * t_tb m -> Z.testbit mem0 i = false) ->
+  forall fuel word b e, 0 <= b -> b <= e -> e <= Z.of_nat (length recs) -> t_max_vocab m < 2 ^ 32 ->
+  (forall i j, b <= i -> i <= j -> j < e -> tword_of recs i <= tword_of recs j) ->
+  (forall i, b <= i < e -> tword_of recs i <= t_max_vocab m) -> 0 <= word <= t_max_vocab m -> e - b <= 2 ^ 32 ->
+  (Z.of_nat fuel >= Z.max 1 (e - b + 1)) ->
+  exists res, tmid_find m fuel (tmem' m recs next_end mem0) word b e = Some res /\
+    match res with
+    | Some (p, prob, bo, cb, ce) => b <= p < e /\ tword_of recs p = word /\ prob = sign_on (tprob_of recs p mod 2 ^ 31) /\
+                                    bo = tbo_of recs p /\ cb = tnext_of recs next_end p /\ ce = tnext_of recs next_end (p + 1)
+    | None => forall i, b <= i < e -> tword_of recs i <> word
+    end.
+Proof. exact tmid_refines. Qed.
+
+(* the same for BitPackedMiddle<ArrayBhiksha>: the FULL next pointers come back although only their low bits are stored inline,
+   for every non-decreasing pointer sequence and every number of inline bits *)
+Theorem C03_trie_middle_array_bhiksha : forall m, 0 <= t_base m -> 0 <= t_wb m <= 57 -> 0 <= t_nb m <= 57 ->
+  forall recs next_end mem0,
+  Forall (fun r => 0 <= r_word _ r < 2 ^ t_wb m /\ 0 <= fst (r_val _ r) < 2 ^ 32 /\ 0 <= snd (r_val _ r) < 2 ^ 32) recs ->
+  sorted (map (r_next pb) recs ++ [next_end]) -> nonneg (map (r_next pb) recs ++ [next_end]) ->
+  (forall i, 8 * t_base m <= i < 8 * t_base m + (Z.of_nat (length recs) + 1) * t_tb m -> Z.testbit mem0 i = false) ->
+  forall fuel word lo hi, 0 <= lo -> lo <= hi -> hi <= Z.of_nat (length recs) -> t_max_vocab m < 2 ^ 32 ->
+  (forall i j, lo <= i -> i <= j -> j < hi -> tword_of recs i <= tword_of recs j) ->
+  (forall i, lo <= i < hi -> tword_of recs i <= t_max_vocab m) -> 0 <= word <= t_max_vocab m -> hi - lo <= 2 ^ 32 ->
+  (Z.of_nat fuel >= Z.max 1 (hi - lo + 1)) ->
+  exists res, tmidA_find m fuel (length (map (r_next pb) recs ++ [next_end])) (tstA m recs next_end mem0) word lo hi = Some res /\
+    match res with
+    | Some (p, prob, bo, cb, ce) => lo <= p < hi /\ tword_of recs p = word /\ prob = sign_on (tprob_of recs p mod 2 ^ 31) /\
+                                    bo = tbo_of recs p /\ cb = tnextA recs next_end p /\ ce = tnextA recs next_end (p + 1)
+    | None => forall i, lo <= i < hi -> tword_of recs i <> word
+    end.
+Proof. exact tmidA_refines. Qed.
+
+(* BitPackedLongest *)
+Theorem C03_trie_longest_array : forall m, 0 <= l_base m -> 0 <= l_wb m <= 57 ->
+  forall recs mem0, Forall (lrec_ok m) recs ->
+  (forall i, 8 * l_base m <= i < 8 * l_base m + (Z.of_nat (length recs) + 1) * l_tb m -> Z.testbit mem0 i = false) ->
+  forall fuel word b e, 0 <= b -> b <= e -> e <= Z.of_nat (length recs) -> l_max_vocab m < 2 ^ 32 ->
+  (forall i j, b <= i -> i <= j -> j < e -> lword_of recs i <= lword_of recs j) ->
+  (forall i, b <= i < e -> lword_of recs i <= l_max_vocab m) -> 0 <= word <= l_max_vocab m -> e - b <= 2 ^ 32 ->
+  (Z.of_nat fuel >= Z.max 1 (e - b + 1)) ->
+  exists res, tlong_find m fuel (lmem' m recs mem0) word b e = Some res /\
+    match res with
+    | Some (p, prob) => b <= p < e /\ lword_of recs p = word /\ prob = sign_on (lprob_of recs p mod 2 ^ 31)
+    | None => forall i, b <= i < e -> lword_of recs i <> word
+    end.
+Proof. exact tlong_refines. Qed.
